@@ -32,6 +32,10 @@ Proof. reflexivity. Qed.
 (* the VSQL compiler emits the GRANTs and REVOKEs of a block in textual order (C13-F6 repaired) *)
 Lemma rules_compiled_in_source_order : parser_acl_grants_first = false.
 Proof. reflexivity. Qed.
+(* the compiler's operation lists for ALL / ALL(columns) ON TABLE are the documented SELECT, INSERT, UPDATE *)
+Lemma vsql_all_is_the_documented_list :
+  parser_all_table_ops = vsql_all_documented /\ parser_all_columns_table_ops = vsql_all_documented.
+Proof. split; reflexivity. Qed.
 (* a rule keeps its own copy of the field list it is declared with (C13-F8 repaired) *)
 Lemma rule_clones_field_list : acl_rule_clones_fields = true.
 Proof. reflexivity. Qed.
@@ -51,18 +55,12 @@ Theorem all_rule_covers_every_applicable_operation :
   In t (vis_types S (dws d)) -> fmatch (rflt (drl d)) t = true -> rops (eff_rule S d) = taclops t.
 Proof. exact (accepted_all_ops_cur all_rule_requires_uniform_operations). Qed.
 
-(* FULL STATEMENT (refuted by the code as it is, finding C13-F9): a VSQL `GRANT/REVOKE ALL ON TABLE`
-   carries every operation applicable to the table (INSERT, UPDATE, ACTIVATE, DEACTIVATE, SELECT), as
-   the builder's GrantAll/RevokeAll.  The compiler's list (pkg/parser/const.go, read by the translator)
-   has no ACTIVATE and DEACTIVATE: REVOKE ALL leaves them granted. *)
-Theorem vsql_all_refuted_for_insert_update_select :
-  mem acl_op_activate (vsql_all [acl_op_select; acl_op_insert; acl_op_update] [acl_op_select; acl_op_insert; acl_op_update] []) = false.
-Proof. reflexivity. Qed.
-(* PARTIAL / once repaired: if the compiler's list is the table's operation set, so is the rule's *)
-Theorem vsql_all_covers_table_operations_if_list_complete :
-  forall S d t, dall d = true -> dsrc d = true -> rfields (drl d) = [] ->
-  lset_eqb parser_all_table_ops (taclops t) = true -> lset_eqb (rops (eff_rule S d)) (taclops t) = true.
-Proof. exact vsql_all_ops. Qed.
+(* VSQL's ALL on tables is documented as SELECT, INSERT, UPDATE (not ACTIVATE/DEACTIVATE; the builder's
+   GrantAll/RevokeAll is a different, wider API): a compiled `GRANT/REVOKE ALL [(columns)] ON TABLE` rule
+   carries exactly that list - which the oracle also reads such a statement as. *)
+Theorem vsql_all_rule_has_the_documented_operations :
+  forall S d, dall d = true -> dsrc d = true -> rops (eff_rule S d) = vsql_all_documented.
+Proof. exact (vsql_all_ops vsql_all_is_the_documented_list). Qed.
 
 (* A rule keeps the field list it was declared with, whatever the caller does afterwards with the
    slice it passed (C13-F8 repaired: the rule clones it). *)
@@ -458,6 +456,18 @@ Example rule_fields_nonvacuous :
   rfields (eff_rule (mkSchema [] []) d) = [5] /\ rfields (eff_rule_gen false (mkSchema [] []) d) = [6].
 Proof. vm_compute. split; reflexivity. Qed.
 
+Example vsql_all_nonvacuous :
+  let t := mkTyp 14 5 20 [] (Some [0; 1; 4; 5]) true false false true [1; 2; 3; 4; 5] in
+  let S0 := mkSchema [ex_role 11; t] [mkWs 20 [] []] in
+  let g o := mkD 20 0 false [] true (mkRule [o] true (FQNames [14]) [] 11) in
+  let rall := mkD 20 0 true [] true (mkRule [] false (FQNames [14]) [] 11) in
+  let l := [g acl_op_insert; g acl_op_select; g acl_op_activate; rall] in
+  rops (eff_rule S0 rall) = [5; 1; 2] /\
+  is_allowed (install S0 l) 99 20 acl_op_select 14 [] [11] = ODeny /\
+  is_allowed (install S0 l) 99 20 acl_op_activate 14 [] [11] = OAllow /\
+  map rops (spec_rules S0 [rall] 20 t) = [[5; 1; 2]].
+Proof. vm_compute. repeat split. Qed.
+
 Example link_nonvacuous :
   let q := mkQ 20 acl_op_select 14 [1; 5] [13; 10; 11; 12] OAllow in
   qout q = is_allowed_gen found_cfg ex_schema 99 20 acl_op_select 14 [1; 5] [13; 10; 11; 12] /\
@@ -469,8 +479,7 @@ Proof. vm_compute. repeat split. Qed.
 
 Print Assumptions rules_kept_in_declared_order.
 Print Assumptions all_rule_covers_every_applicable_operation.
-Print Assumptions vsql_all_refuted_for_insert_update_select.
-Print Assumptions vsql_all_covers_table_operations_if_list_complete.
+Print Assumptions vsql_all_rule_has_the_documented_operations.
 Print Assumptions grants_first_refuted.
 Print Assumptions grants_first_partial.
 Print Assumptions all_rule_refuted_without_uniformity.
